@@ -29,13 +29,17 @@ def spec_unique(tier):
     return ConcSpec(
         name="UniqueCore", scenario="uc",
         grid=[{"prod": p, "cons": c} for p in PRODS for c in CONS],
-        inv_props=dict(OWN_INVS, **RACE_INVS), primary="C01",
+        # small scenarios: every schedule with one tail split (preemption between an operation and the plain code after it)
+        tail_boost=[{"prod": p, "cons": c} for p in ("val", "drop") for c in CONS], tail_boost_execs=3000, tail_boost_preempt=2,
+        inv_props=dict(OWN_INVS, NoRace=("C04", "C01")), primary="C01",   # "never delivered early or torn" includes visibility
         mc_cfgs=[("UniqueCore_MC.cfg", 4, 300, "UniqueCore: 4 producer kinds x 10 consumer kinds, all interleavings, SC mode")],
         paths_cfg="UniqueCore_paths.cfg",
         dfs_max=5000,
         rand_execs=0 if tier == "quick" else 200)
 
 
+SH_WHEN = [{"O1": "whenall", "O2": "get"}, {"O1": "whenall", "O2": "copy_drop"}, {"O1": "whenall", "O2": "whenall"},
+           {"O1": "whenall", "O2": "get_const", "O3": "get"}]
 SH_OPS = ["then_inline", "then_exec", "subscribe", "share", "copy_drop", "ready", "get", "get_const"]
 
 
@@ -49,9 +53,10 @@ def spec_shared(tier):
                 ("then_inline", "then_inline"), ("share", "ready"), ("get", "get")}
         pairs = [p for p in pairs if p in keep]
     grid += [{"O1": a, "O2": b} for a, b in pairs]
+    grid += SH_WHEN   # an observer that hands its copy to WhenAll: abstract monitors only (SharedCore_Trace.Modelled)
     return ConcSpec(
-        name="SharedCore", scenario="sh", grid=grid,
-        inv_props=dict(OWN_INVS, **dict(RACE_INVS, RefCountSane="C03")), primary="C06",
+        name="SharedCore", scenario="sh", grid=grid, tail_boost=SH_WHEN, tail_boost_execs=5000,
+        inv_props=dict(OWN_INVS, **dict(NoRace=("C04", "C06"), RefCountSane="C03")), primary="C06",
         mc_cfgs=[("SharedCore_MC.cfg", 8, 600, "SharedCore: fulfiller + 2 observers x 8 observer operations, all interleavings")],
         paths_cfg="SharedCore_paths.cfg",
         dfs_max=3000, preempt=2 if tier == "quick" else 3,
@@ -71,6 +76,8 @@ def spec_wait(tier):
         mc_cfgs=[("Wait_MC.cfg", 8, 900, "Wait: 1-2 producers x {Wait, WaitFor} x {Get, ThenInline} afterwards, deadline anywhere, all interleavings")],
         paths_cfg=None,
         dfs_max=12000, preempt=2,
+        tail_boost=[{"n": "2", "form": "wait_for"}, {"n": "1", "form": "wait_for", "second": "get"}, {"n": "2", "form": "wait"}],
+        tail_boost_execs=3000, tail_boost_preempt=1,
         rand_execs=300 if tier == "quick" else 4000,
         rand_grid=[{"n": "3", "form": "wait_for"}, {"n": "3", "form": "wait_for_it", "second": "then"}, {"n": "3", "form": "wait"}],
         trace_timeout=1500)
@@ -89,8 +96,9 @@ def spec_wg(tier):
            "released, whether or not the deadline fires)")]
     if tier != "quick":
         mc.append(("WaitGroup_MC3.cfg", 12, 3000, "WaitGroup: up to 3 sources / 2 waiters incl. two coroutines and timed + coroutine"))
+    boost = [{"src": a, "wts": w} for a in ("d", "a", "c", "S") for w in ("w", "i", "o")]
     return ConcSpec(
-        name="WaitGroup", scenario="wg", grid=grid, primary="C16",
+        name="WaitGroup", scenario="wg", grid=grid, primary="C16", tail_boost=boost, tail_boost_execs=3000, tail_boost_preempt=1,
         paths_cfg="WaitGroup_paths.cfg", paths_max=4000 if tier == "quick" else 60000,
         inv_props={"NoRace": ("C16", "C04"), "OwnershipOK": ("C16", "C03"), "ConsumedOnce": ("C16", "C03"),
                    "ConsumedAtQuiescence": ("C16", "C03"), "HeapWaiterReleased": ("C16", "C03")},
@@ -118,8 +126,10 @@ def spec_comutex(tier):
     if tier != "quick":
         mc.append(("CoMutex_MC3.cfg", 12, 3000, "CoMutex: 3 coroutines, 4 option sets, 2 workers"))
         mc.append(("CoMutex_Live.cfg", 4, 1800, "CoMutex: every request is eventually granted under weak fairness of the workers"))
+    boost = [{"opts": o, "workers": "2", "p1": "a", "p2": "a"} for o in ("00", "01", "10", "11")]
+    boost += [{"opts": "10", "workers": "2", "p1": "s", "p2": "c"}, {"opts": "11", "workers": "2", "p1": "b", "p2": "h"}]
     return ConcSpec(
-        name="CoMutex", scenario="cm", grid=grid, inv_props={"NoRace": ("C14", "C04")}, primary="C14",
+        name="CoMutex", scenario="cm", grid=grid, tail_boost=boost, tail_boost_execs=4000, tail_boost_preempt=2, inv_props={"NoRace": ("C14", "C04")}, primary="C14",
         mc_cfgs=mc, paths_cfg=None,   # (the model lets any idle worker take a job later; the harness pool wakes workers eagerly)
         dfs_max=600 if tier == "quick" else 6000, preempt=2 if tier == "quick" else 3,
         rand_execs=100 if tier == "quick" else 2000, rand_grid=rand,
@@ -145,8 +155,11 @@ def spec_cosmutex(tier):
            "is parked forever), 3 coroutines, 1-2 workers")]
     if tier != "quick":
         mc.append(("CoSharedMutex_P2.cfg", 14, 3000, "CoSharedMutex protocol only: 2 rounds per coroutine"))
+    # first writer arriving while readers are active: the hand-over uses a plain field published around two operations
+    boost = [{"opts": o, "workers": "2", "p1": "r", "p2": "w"} for o in ("00", "01", "10", "11")]
+    boost += [{"opts": o, "workers": "2", "p1": "r", "p2": "w", "p3": "w"} for o in ("10", "01")]
     return ConcSpec(
-        name="CoSharedMutex", scenario="sm", grid=grid, inv_props={"NoRace": ("C15", "C04")}, primary="C15",
+        name="CoSharedMutex", scenario="sm", grid=grid, tail_boost=boost, tail_boost_execs=4000, tail_boost_preempt=2, inv_props={"NoRace": ("C15", "C04")}, primary="C15",
         mc_cfgs=mc, paths_cfg=None,
         dfs_max=600 if tier == "quick" else 6000, preempt=2 if tier == "quick" else 3,
         rand_execs=100 if tier == "quick" else 2000, rand_grid=rand,
@@ -170,8 +183,9 @@ def spec_await(tier):
     for outs in ("v", "x"):
         grid.append({"form": "sfut", "n": "1", "outs": outs})
         grid.append({"form": "sfut", "n": "1", "outs": outs, "k": "2"})
+    boost = [g for g in grid if g.get("n") == "1" and g.get("form") != "sfut"]
     return ConcSpec(
-        name="Await", scenario="aw", grid=grid, primary="C13",
+        name="Await", scenario="aw", grid=grid, primary="C13", tail_boost=boost, tail_boost_execs=3000, tail_boost_preempt=2,
         inv_props={"NoRace": ("C13", "C04"), "EndState": ("C13", "C03"), "AbsEnd": ("C13", "C03")},
         mc_cfgs=[("Await_MC.cfg", 8, 600, "Await: {co_await, Await, AwaitSticky, AwaitOn} x 1-2 futures x outcomes x "
                   "{accepting, rejecting executor}, all interleavings"),
@@ -194,8 +208,9 @@ def spec_when(tier, strats, primary):
     mc = [("When_MC.cfg", 8, 900, "When: 7 strategies x 5 outcome patterns, n = 2, all interleavings with registration")]
     if tier != "quick":
         mc.append(("When_MC3.cfg", 12, 2400, "When: n = 3"))
+    boost = [{"strat": st, "form": "static", "outs": "vx"} for st in strats] + [{"strat": st, "form": "dynamic", "outs": "xv"} for st in strats]
     return ConcSpec(
-        name="When", scenario="wh", grid=grid,
+        name="When", scenario="wh", grid=grid, tail_boost=boost, tail_boost_execs=3000, tail_boost_preempt=1,
         inv_props=dict(OWN_INVS, **dict(RACE_INVS, ReleasedOnce="C03")), primary=primary,
         mc_cfgs=mc, paths_cfg=None,
         dfs_max=6000, preempt=1 if tier == "quick" else 2,
@@ -211,10 +226,12 @@ def spec_strand(tier, primary="C07"):
             {"subs": "21", "workers": "2", "stop": "stop", "weak": "1"}]
     return ConcSpec(
         name="Strand", scenario="st", grid=grid,
-        inv_props=dict(OWN_INVS, **dict(RACE_INVS, BalancedAtQuiescence="C03", DropOnlyWhenRefused="C05",
+        inv_props=dict(OWN_INVS, **dict(NoRace=("C04", "C07"), BalancedAtQuiescence="C03", DropOnlyWhenRefused="C05",
                                         AbsDropOnlyAfterStop="C05")), primary=primary,
         mc_cfgs=[("Strand_MC.cfg", 8, 900, "Strand: 2 submitters x 1-2 jobs, 1-2 workers, stop/hard stop anywhere, weak CAS failures")],
         paths_cfg=None, dfs_max=2500, preempt=2 if tier == "quick" else 3,
+        tail_boost=[{"subs": "11", "workers": "2", "stop": "none"}, {"subs": "11", "workers": "1", "stop": "stop"}],
+        tail_boost_execs=3000, tail_boost_preempt=1,
         rand_execs=150 if tier == "quick" else 2000, rand_grid=rand, trace_timeout=1500)
 
 
